@@ -155,6 +155,65 @@ def run_lines(argv, lines, env=None, timeout=600, cwd=None):
     return ans
 
 
+class Session:
+    """a live line-protocol process: requests can depend on earlier answers"""
+    def __init__(self, argv, env=None, timeout=120):
+        self.p = subprocess.Popen(argv, stdin=subprocess.PIPE, stdout=subprocess.PIPE, stderr=subprocess.DEVNULL, env=env or ENV, bufsize=0)
+        self.timeout = timeout
+        self.answers = []
+        self.buf = b""
+
+    def _readline(self):
+        import select
+        while b"\n" not in self.buf:
+            r, _, _ = select.select([self.p.stdout], [], [], self.timeout)
+            if not r:
+                self.p.kill()
+                raise Died(list(self.answers), None, "timeout")
+            chunk = os.read(self.p.stdout.fileno(), 1 << 16)
+            if not chunk:
+                raise Died(list(self.answers), self.p.poll(), f"process ended (exit {self.p.poll()})")
+            self.buf += chunk
+        line, self.buf = self.buf.split(b"\n", 1)
+        return line.decode("utf-8", "replace")
+
+    def ask_many(self, lines, chunk=50):
+        out = []
+        for i in range(0, len(lines), chunk):
+            part = lines[i:i + chunk]
+            try:
+                self.p.stdin.write(("\n".join(part) + "\n").encode())
+                self.p.stdin.flush()
+            except (BrokenPipeError, OSError):
+                raise Died(self.answers, self.p.poll(), "process gone (broken pipe)")
+            for _ in part:
+                a = self._readline()
+                out.append(a)
+                self.answers.append(a)
+        return out
+
+    def ask(self, line):
+        return self.ask_many([line])[0]
+
+    def close(self):
+        try:
+            self.p.stdin.close()
+            self.p.wait(timeout=10)
+        except Exception:
+            self.p.kill()
+
+
+def harness_session(mode_args, preload=False, timeout=120):
+    env = dict(ENV)
+    if preload:
+        env["LD_PRELOAD"] = IOTRACE
+    return Session([HBIN] + mode_args, env=env, timeout=timeout)
+
+
+def driver_session(timeout=120):
+    return Session([DRIVER], timeout=timeout)
+
+
 def run_driver(lines, timeout=600):
     return run_lines([DRIVER], lines, timeout=timeout)
 
